@@ -172,7 +172,32 @@ EXTRA2 = {
  "C18": "An accepted merge (equivalent but differently spelled ids) leaves to with exactly from's id and type.",
  "C20": "Positions: only member of a list, only member of every list property.",
 }
+# families added after the fifth (adversarial) round (DESIGN.md §8.11)
+EXTRA3 = {
+ "C01": "Every vocabulary type name of every struct (level 1 and pairs of instant/duration properties); an IRI property related to the value's own id; chains of 5..130 embedded objects; list members colliding under common 32-bit hashes; zone offsets that are not whole hours.",
+ "C02": "Number edges (NaN, infinities, -0, extreme floats, sub-second / extreme durations, MinInt64) in every numeric and duration property; language lists with repeated tags; every format / bidi / non-character code point singly; a hostile string nine levels deep in a list.",
+ "C03": "The C01 families of round 5 (type names, related identities, deep chains, colliding ids) and language lists JSON cannot carry (repeated tags, ill-formed bytes, explicit und).",
+ "C04": "Lexical space of the scalar properties: every string of length <= 3 over -+PT1.SZ:e as the value of every instant / duration / number / boolean property; lists of two members with the same id and asymmetric nested members.",
+ "C05": "The C01 families of round 5.",
+ "C06": "Both codecs on one instance (JSON first, then gob).",
+ "C07": "Chains of depth 10 and 70 (JSON and gob); a document whose id is <partOf>?page=2.",
+ "C08": "Field types must be identical (two interface types with one method set are not); snapshot before/after making a view; members in oldest-first order; a callback that writes and then fails.",
+ "C09": "Ill-formed texts that differ; a changed name inside a member of lists of 3..120 objects.",
+ "C10": "Pairs of different addressees that are easy to confuse (U+0130 vs i, IPv6 literals, query values, ids colliding under 32-bit hashes); Block whose object is an embedded collection.",
+ "C11": "A second walked position naming the carrier's identity; hosts whose own bto/bcc are empty but have capacity.",
+ "C12": "A changed package-level variable is counted, not judged; unusual language lists in the sequential pass.",
+ "C13": "A pool whose items mention each other's ids in other properties; pools of ids colliding under 32-bit hashes.",
+ "C14": "Reference by simple case folding; confusable grid (U+0130, Kelvin sign, long s, percent-encoded = and & in queries, colliding ids).",
+ "C15": "More near-miss segments; pages with partOf and collections with first/current as the explicit collection.",
+ "C16": "Every activity type name with an embedded object that has the actor's id.",
+ "C17": "Activities of every type name without instants that embed dated items.",
+ "C18": "The Public collection in the addressing lists of both sides.",
+ "C19": "Byte-class texts (a tag in brackets, cut multi-byte sequences, NUL) in histories and in the equality matrix.",
+ "C20": "A list holding the nil against IRI lists of every length; nil in every item field of Endpoints.",
+}
 for pid, extra in EXTRA.items():
+    checks[pid]["level_claimed"]["text"] += " " + extra
+for pid, extra in EXTRA3.items():
     checks[pid]["level_claimed"]["text"] += " " + extra
 for pid, extra in EXTRA2.items():
     checks[pid]["level_claimed"]["text"] += " " + extra
